@@ -289,7 +289,7 @@ def ob_wrappers(report):
                     return violation(ob, exs, f'ActivePeers::{meth} passes {a_in} instead of its own arguments {want}', f'wrapper-{meth}-args', {'seq': seq}, total)
                 if meth == 'subscribe':
                     rd = [s[1] for s in inside if s[0] == 'read']
-                    if 'keys' not in rd or 'subscribe' not in rd:
+                    if not ({'keys', 'iter'} & set(rd)) or 'subscribe' not in rd:
                         return violation(ob, exs, f'subscribe does not take both snapshot and receiver inside one lock scope: {rd}', 'wrapper-subscribe-scope', {'seq': seq}, total)
                 okpaths += 1
                 if len(samples) < 4:
@@ -301,6 +301,59 @@ def ob_wrappers(report):
                    'and every map update / close / event / snapshot read happens before the guard is dropped; subscribe takes snapshot and receiver '
                    'in one read-lock scope', ['ActivePeers::{add,remove,remove_with_stable_id,subscribe,peers,get,len}', 'ActivePeersInner::*'],
                    {'inline_depth': 4, 'RwLock': 'contract: guard gives exclusive/shared access until dropped'}, body)
+
+
+def ob_listing_complete(report):
+    """peers() and the snapshot half of subscribe() list EVERY key of the connection map: the listing changes only when the map does, and every map change is
+    published as an event (add/remove transitions).  A listing that leaves entries out by some other criterion (the transport already closed, an age, an
+    affinity ...) changes without an event: a subscriber joining then sees LostPeer for a peer its snapshot never contained."""
+    def body(ob):
+        from mirsym import iters as IT
+        ex = e2.executor('anemo', IT.ITER_MODELS + CONNECTION_MODELS, max_depth=3)
+        cf = conn_map_field()
+        total, checked = 0, 0
+        for meth in ('peers', 'subscribe'):
+            if meth not in methods_of(ex.prog, 'ActivePeersInner'):
+                continue
+            fn = find_method(ex.prog, 'ActivePeersInner', meth)
+            p = Path()
+            selfp = inner_state(p)
+            res = ex.run(fn, [selfp], p)
+            total += len(res)
+            for r in res:
+                if r.tag == 'loop-bound':
+                    continue
+                if r.tag != 'return':
+                    continue
+                colls = []
+
+                def walk(v, d=0):
+                    if d > 4:
+                        return
+                    if isinstance(v, Sym) and v.get_ov('collected') is not None:
+                        colls.append(v.get_ov('collected'))
+                    if isinstance(v, Agg):
+                        for f_ in v.fields:
+                            walk(f_, d + 1)
+                walk(r.ret)
+                if not colls:
+                    return ob.done([ex], 'inconclusive', f'ActivePeersInner::{meth} does not build its listing with an iterator pipeline over the connection map ({vrepr(r.ret)[:60]})', paths=total)
+                for c in colls:
+                    src, mode, stages, _ = IT.parts(c)
+                    if vname(src) not in (f'&inner.{cf}', f'inner.{cf}') and not vname(src).startswith(f'&inner.{cf}'):
+                        return ob.done([ex], 'inconclusive', f'ActivePeersInner::{meth} lists {vrepr(src)[:60]}, not the connection map', paths=total)
+                    drop = [st.variant for st in stages if st.variant in ('filter', 'filter_map', 'take', 'skip', 'take_while', 'skip_while', 'step_by', 'flat_map')]
+                    if mode not in ('keys', 'iter', 'into_keys', 'iter_mut') or drop:
+                        o = violation(ob, [ex], f'ActivePeersInner::{meth} does not list every registered peer: the listing is {mode}() of the connection map through {[st.variant for st in stages]} - '
+                                      f'entries are left out by a criterion ({drop or mode}) that changes without any NewPeer/LostPeer event, so a snapshot and the events that follow it no longer '
+                                      'add up to the connected set', f'listing-filtered:{meth}', path_summary(r), total)
+                        return o
+                    checked += 1
+        if not checked:
+            return ob.done([ex], 'inconclusive', 'no listing pipeline found', paths=total)
+        ob.done([ex], 'held', '', {'paths': total, 'listings_checked': checked}, paths=total)
+    return guarded(report, 'listing_is_every_map_key', 'ActivePeersInner::{peers,subscribe}: the listing is keys()/iter() of the connection map with no element-dropping adaptor (filter, take, skip ...)',
+                   ['ActivePeersInner::peers', 'ActivePeersInner::subscribe'], {'inline_depth': 3, 'iterators': 'abstract lazy-iterator contract (one generic element)'}, body)
 
 
 def ob_removal_entry_points(report):
@@ -437,12 +490,14 @@ def check(report, tier, only=None):
     from props import handler
     from props import C12       # (C12 imports nothing from here)
     # LostPeer must follow the observed end of the connection directly: the removal precedes the teardown of the request tasks
-    obs = [ob_add, ob_remove, ob_remove_sid, ob_wrappers, ob_accessors, ob_removal_entry_points, lambda rep: handler.ob_handler_tail(rep, PROP), lambda rep: handler.ob_add_peer(rep, PROP),
+    obs = [ob_add, ob_remove, ob_remove_sid, ob_wrappers, ob_listing_complete, ob_accessors, ob_removal_entry_points, lambda rep: handler.ob_handler_tail(rep, PROP), lambda rep: handler.ob_add_peer(rep, PROP),
            C12.ob_tail_aborts_tasks]
     # the listing is what callers act on: every established connection goes through add_peer (no connection served without being listed, none listed twice),
     # and a Peer handle is bound to the connection that is listed now
     from props import C03 as _C03, C09 as _C09
     obs += [_C03.ob_connecting_result, _C09.ob_disconnect]
+    # a handler task that died before deregistering its connection is not silently dropped by the manager loop
+    obs.append(lambda rep: handler.ob_handler_failure_not_ignored(rep, PROP))
     if tier == 'thorough':
         obs.append(ob_two_step)
     for f in obs:
